@@ -101,6 +101,17 @@ func run(rt *rapid.T, disciplined bool) {
 		clean := !m.Dirty && !unwritten
 		switch {
 		case k < 30:
+			if k < 5 && m.Revert(rt, "revert") {
+				gcAfterChange = 0
+				continue
+			}
+			if k >= 5 && k < 8 {
+				// removal of a key that is not there: reports "not found" and changes nothing
+				if key := gen.Pick(rt, pool, "absent"); m.Model[string(key)].Key == nil {
+					m.Delete(key)
+					continue
+				}
+			}
 			ki := gen.Uniform(rt, 0, len(pool)-1, "ki")
 			m.Update(pool[ki], wmkit.GenValue(rt, ki, &counter, unique))
 			gcAfterChange = 0
@@ -198,6 +209,11 @@ func run(rt *rapid.T, disciplined bool) {
 			}
 			m.Logf("root-read")
 			m.T.Root()
+			if clean {
+				// "identical to the live one": the live trie itself must present the model as well
+				m.Logf("observe-live")
+				wmkit.ObserveTrie(m.T, m.Model, nil, m.Fail, "live trie (clean, batch written)")
+			}
 		default:
 			if clean {
 				m.Reload()
